@@ -449,8 +449,9 @@ def hang_summary(err):
     frames = []
     for fn, path in _GDB_FRAME.findall(seg):
         c = _clean_fn(fn)
-        if c.startswith("__") or c.startswith("std::") or c in ("sched_yield", "nanosleep", "futex_wait") \
-                or "spin_wait" in c or "syscall" in c:
+        if c.startswith("__") or c.startswith("std::") or c in ("sched_yield", "nanosleep", "futex_wait", "system") \
+                or "spin_wait" in c or "syscall" in c or "do_system" in c or "hang_handler" in c or "waitpid" in c \
+                or "signal handler" in c or "posix_spawn" in c:
             continue
         if "::" not in c and path:
             c = os.path.basename(path) + ":" + c
